@@ -160,6 +160,60 @@ func (in *inst) list(list []ast.Stmt) {
 	}
 }
 
+func hasCall(n ast.Node) bool {
+	found := false
+	ast.Inspect(n, func(m ast.Node) bool {
+		switch m.(type) {
+		case *ast.CallExpr:
+			found = true
+		case *ast.FuncLit:
+			return false
+		}
+		return !found
+	})
+	return found
+}
+
+func (in *inst) plainBool(e ast.Expr) bool {
+	t := in.pkg.TypesInfo.TypeOf(e)
+	if t == nil {
+		return false
+	}
+	b, ok := t.(*types.Basic)
+	return ok && (b.Kind() == types.Bool || b.Kind() == types.UntypedBool)
+}
+
+// shortCircuit puts a scheduling point between the operands of && and || when the right operand calls
+// something: `a() && b()` is a check-then-act window like any pair of statements (a goroutine can be
+// pre-empted between the two calls), so the simulator must be able to pre-empt there too.
+func (in *inst) shortCircuit(b *ast.BinaryExpr) {
+	if (b.Op != token.LAND && b.Op != token.LOR) || !hasCall(b.Y) || !hasCall(b.X) {
+		return
+	}
+	if !in.plainBool(b.X) || !in.plainBool(b.Y) {
+		return
+	}
+	if tv, ok := in.pkg.TypesInfo.Types[b]; ok && tv.Value != nil {
+		return // constant expression
+	}
+	site := in.site(b.Y.Pos(), "expr")
+	if b.Op == token.LAND {
+		in.add(in.off(b.Y.Pos()), 0, fmt.Sprintf("simrt.YieldT(%d) && ", site))
+	} else {
+		in.add(in.off(b.Y.Pos()), 0, fmt.Sprintf("simrt.YieldF(%d) || ", site))
+	}
+}
+
+// ifInit: `if x := load(); test(x)` - a scheduling point between the init statement and the condition.
+func (in *inst) ifInit(s *ast.IfStmt) {
+	if s.Init == nil || s.Cond == nil || !hasCall(s.Init) || !hasCall(s.Cond) || !in.plainBool(s.Cond) {
+		return
+	}
+	site := in.site(s.Cond.Pos(), "expr")
+	in.add(in.off(s.Cond.Pos()), 0, fmt.Sprintf("simrt.YieldT(%d) && (", site))
+	in.add(in.off(s.Cond.End()), 0, ")")
+}
+
 // selectRewrite turns a receive-only select into: poll ready cases in a
 // simulator-chosen order, else block on the original select; then dispatch.
 func (in *inst) selectRewrite(sel *ast.SelectStmt, labeled bool) {
@@ -289,6 +343,10 @@ func (in *inst) file(f *ast.File) []byte {
 				in.lockRewrite(x)
 			case *ast.GoStmt:
 				in.goRewrite(x)
+			case *ast.BinaryExpr:
+				in.shortCircuit(x)
+			case *ast.IfStmt:
+				in.ifInit(x)
 			case *ast.BlockStmt:
 				in.list(x.List)
 			case *ast.CaseClause:
